@@ -101,36 +101,29 @@ Definition run_tier (fixed : bool) (inp : list Z) : list Z :=
   | [] => []
   end.
 
-(* Monitor over observables only: [ops] as sent by the harness, [obs] the members the real
-   Tier contacted.  Checks (a) every member index is in range, (b) on every *sequential*
-   stretch (a Begin directly followed by its own Finish, with nothing else in flight) the
-   next Begin goes to the same member after success and to the successor (mod n) after a
-   failure. *)
-Fixpoint mon_tier_go (n : Z) (nin : nat) (prev : option (Z * bool)) (ops : list op) (obs : list Z) : bool :=
+(* Monitor over observables only ([ops] as sent by the harness, [obs] the members the real
+   Tier contacted): the property read as a specification of the pointer.  The pointer is what
+   the latest Begin observed; a Finish moves it by one (mod n) exactly when it reports a
+   failure of the member the pointer is on, and leaves it alone otherwise (a stale failure of
+   a member the tier already left, or any success, must not move it).  Every Begin must
+   observe the pointer so computed, and every member index must be in range. *)
+Fixpoint mon_tier_go (n : Z) (cur : Z) (infl : list (Z * Z)) (ops : list op) (obs : list Z) : bool :=
   match ops with
   | [] => match obs with [] => true | _ => false end
   | Begin tid :: r =>
       match obs with
       | [] => false
-      | m :: obs' =>
-          ((0 <=? m) && (m <? n)) &&
-          (match prev with
-           | Some (pm, ok) => if ok then m =? pm else m =? (pm + 1) mod n
-           | None => true
-           end) &&
-          (match r with
-           | Finish tid' ok :: r' =>
-               if (tid' =? tid) && Nat.eqb nin 0
-               then mon_tier_go n 0 (Some (m, ok)) r' obs'
-               else mon_tier_go n (S nin) None r obs'
-           | _ => mon_tier_go n (S nin) None r obs'
-           end)
+      | m :: obs' => ((0 <=? m) && (m <? n) && (m =? cur)) && mon_tier_go n cur ((tid, m) :: infl) r obs'
       end
-  | Finish tid ok :: r => mon_tier_go n (pred nin) None r obs
+  | Finish tid ok :: r =>
+      match lookup tid infl with
+      | None => mon_tier_go n cur infl r obs
+      | Some v => mon_tier_go n (if negb ok && (v =? cur) then (cur + 1) mod n else cur) (remove tid infl) r obs
+      end
   end.
 
 Definition mon_tier (inp obs : list Z) : bool :=
   match inp with
-  | n :: r => mon_tier_go n 0 None (decode_ops (length r) r) obs
+  | n :: r => mon_tier_go n 0 [] (decode_ops (length r) r) obs
   | [] => false
   end.
